@@ -1,6 +1,27 @@
-(* Tie of the guards of Model/Decode.v to src/debugger/variable/value/specialization/mod.rs through Gen/Decode.v. *)
-From Coq Require Import NArith.
+(* Tie of Model/Decode.v to the source through Gen/Decode.v (regenerated on every run from
+   src/debugger/variable/value/specialization/{mod,hashbrown}.rs): the guards, the group width, and the bit
+   functions of the hashbrown reflection (translated from the Rust expressions) equal the model's, for every input. *)
+From Coq Require Import NArith List.
 From BS Require Import Model.Base Gen.Decode Model.Decode.
+Import ListNotations.
+Open Scope N_scope.
 
 Theorem guards_are_the_source's : Model.Decode.LEN_GUARD = Gen.Decode.LEN_GUARD /\ Model.Decode.CAP_GUARD = Gen.Decode.CAP_GUARD.
 Proof. split; reflexivity. Qed.
+
+Theorem group_width_is_the_source's : Model.Decode.GROUP_WIDTH = Gen.Decode.GROUP_WIDTH.
+Proof. reflexivity. Qed.
+
+Theorem bitmask_ops_are_the_source's : forall x,
+  Model.Decode.bm_invert x = Gen.Decode.bm_invert x /\ Model.Decode.remove_lowest_bit x = Gen.Decode.bm_remove_lowest_bit x.
+Proof. intros x. split; reflexivity. Qed.
+
+(* match_empty_or_deleted: the model's loop is the fold of the source's per-byte expression *)
+Fixpoint med_src (i : N) (g : list N) (result : N) : N :=
+  match g with [] => result | b :: t => med_src (i + 1) t (N.lor result (Gen.Decode.med_byte b i)) end.
+
+Theorem match_empty_or_deleted_is_the_source's : forall g, Model.Decode.match_empty_or_deleted g = med_src 0 g 0.
+Proof.
+  intros g. unfold Model.Decode.match_empty_or_deleted. generalize 0 at 1 3. generalize 0.
+  induction g as [|b t IH]; intros r i; [ reflexivity | ]. cbn [med_loop med_src]. apply IH.
+Qed.
